@@ -438,6 +438,12 @@ class PLSSParser:
             chunker = PLSSChunker(self.text, layout=self.layout)
             self.blocks = chunker.blocks
             self.unused_components.extend(chunker.unused_blocks)
+            # The text outside every chunk does not get parsed, but may
+            # still contain wording that warrants a warning flag.
+            for _, unused_text in chunker.unused_blocks:
+                ChunkParser(
+                    unused_text, COPY_ALL, self, hand_off=False
+                ).gen_flags_chunk()
 
         for chunk in self.blocks:
             chunk_layout = None
